@@ -59,4 +59,10 @@ PROPS = {
             {"name": "TestC04C", "quick": 8000, "thorough": 150000, "shards_quick": 5},
         ],
     },
+    "C11": {
+        "level": "exploration",
+        "tests": [
+            {"name": "TestC11", "quick": 1500, "thorough": 40000},
+        ],
+    },
 }
